@@ -6,7 +6,7 @@ from lang import *  # noqa
 from props.common import sub_rng, diff_runs, replay_generic, corpus_cases
 
 replay = replay_generic
-EVENTS = ['Da', 'Db', 'Aa', 'Ab', 'Ra', 'Rb', '{', 'for{', 'fn{', '}']
+EVENTS = ['Da', 'Db', 'Dl', 'Aa', 'Ab', 'Ra', 'Rb', '{', 'for{', 'fn{', '}']
 
 
 def render(hist):
@@ -16,7 +16,9 @@ def render(hist):
     for ev in hist:
         ind = '  ' * len(stack)
         k[0] += 1
-        if ev[0] == 'D':
+        if ev == 'Dl':
+            out.append('%s%s a = %d, b = %d;' % (ind, VAR, k[0], k[0] + 500)); out.append('%s%s "%s";' % (ind, PRINT, ev))
+        elif ev[0] == 'D':
             out.append('%s%s %s = %d;' % (ind, VAR, ev[1], k[0])); out.append('%s%s "%s";' % (ind, PRINT, ev))
         elif ev[0] == 'A':
             out.append('%s%s = %d;' % (ind, ev[1], k[0] * 10)); out.append('%s%s "%s";' % (ind, PRINT, ev))
